@@ -70,6 +70,8 @@ def directed_cases(seed: int, tier: str) -> typing.List[dict]:
                 "abort-on-empty-line-then-reuse": [dict(base, omit_ser=True, abort_at=1, abort_style="write", abort_file=0, abort_write=2), dict(base, omit_ser=True, reuse=True), dict(base, omit_ser=True, abort_at=1, abort_style="write", abort_file=1, abort_write=9), dict(base, omit_ser=True, reuse=True)],
                 "edited-inputs-first": [dict(base, variant=True), dict(base), dict(base, variant=True)],
                 "other-support-namespace-first": [dict(base), dict(base, support_ns="acme.support"), dict(base)],
+                "shared-context-other-whitespace-control": [dict(base, share_lctx=True), dict(base, share_lctx=True, trim_blocks=True, lstrip_blocks=True), dict(base, share_lctx=True)],
+                "custom-reserved-identifiers-first": [dict(base, reserved=["value", "data", "a", "x"]), dict(base), dict(base, entry="cli")],
                 "reuse": [dict(base), dict(base, reuse=True)],
                 "reuse-other-omit": [dict(base, omit_ser=True), dict(base, reuse=True, omit_ser=False), dict(base, reuse=True, omit_ser=True)],
                 "other-lang-first": [dict(base, lang=LANGS[(li + 1) % 3], templates=None, pp={}), dict(base, subset_pick=1)],
@@ -162,6 +164,7 @@ class Ctx:
         self.roots = roots
         self.files = files
         self.generators = {}  # type: typing.Dict[str, typing.Any]
+        self.contexts = {}  # type: typing.Dict[str, typing.Any]
 
 
 def api_generate(cx: Ctx, op: dict, out_dir: str) -> typing.Dict[str, str]:
@@ -180,10 +183,17 @@ def api_generate(cx: Ctx, op: dict, out_dir: str) -> typing.Dict[str, str]:
     if op.get("reuse") and gkey in cx.generators:
         ns, gen, sgen = cx.generators[gkey]
     else:
-        bld = LanguageContextBuilder(include_experimental_languages=True).set_target_language(op["lang"])
-        if op.get("support_ns"):
-            bld.set_target_language_configuration_override("support_namespace", op["support_ns"])
-        lctx = bld.create()
+        lkey = repr((op["lang"], op.get("support_ns"), op.get("reserved")))
+        if op.get("share_lctx") and lkey in cx.contexts:
+            lctx = cx.contexts[lkey]  # one LanguageContext serving several generators (documented: contexts are reusable)
+        else:
+            bld = LanguageContextBuilder(include_experimental_languages=True).set_target_language(op["lang"])
+            if op.get("support_ns"):
+                bld.set_target_language_configuration_override("support_namespace", op["support_ns"])
+            if op.get("reserved"):
+                bld.set_target_language_configuration_override("reserved_identifiers", list(op["reserved"]))
+            lctx = bld.create()
+            cx.contexts[lkey] = lctx
         types = pydsdl.read_namespace(root_dir, lookups, allow_unregulated_fixed_port_id=True)
         if op.get("subset") is not None:
             keep = set(op["subset"])
@@ -196,6 +206,10 @@ def api_generate(cx: Ctx, op: dict, out_dir: str) -> typing.Dict[str, str]:
             kw["templates_dir"] = pathlib.Path(os.path.join(cx.world.tpl_dir, op["templates"]))
         if op.get("ns_types"):
             kw["generate_namespace_types"] = YesNoDefault.YES
+        if op.get("trim_blocks"):
+            kw["trim_blocks"] = True
+        if op.get("lstrip_blocks"):
+            kw["lstrip_blocks"] = True
         gen, sgen = create_default_generators(ns, **kw)
         cx.generators[gkey] = (ns, gen, sgen)
     _ORDER["seed"] = op.get("order_seed")
@@ -238,6 +252,10 @@ def cli_generate(cx: Ctx, op: dict, out_dir: str, scratch_in: str) -> typing.Dic
         o["ns_types"] = True
     if op.get("omit_ser"):
         o["omit_ser"] = True
+    if op.get("trim_blocks"):
+        o["trim_blocks"] = True
+    if op.get("lstrip_blocks"):
+        o["lstrip_blocks"] = True
     argv = cx.world.argv(o)
     old_argv, old_out, old_err = sys.argv, sys.stdout, sys.stderr
     sys.argv, sys.stdout, sys.stderr = argv, io.StringIO(), io.StringIO()
@@ -371,15 +389,6 @@ def run_case(case: dict, ctx: dict) -> dict:
                     t["order_seed"] = ro.below(1 << 20) + 1
                 if ro.chance(1, 5):
                     t["entry"] = "cli"
-                if ro.chance(1, 3) and i > 0:
-                    # generate_all() again on the generator object of the previous invocation, possibly with another
-                    # omit_serialization_support argument (a per-call parameter of the same object)
-                    prev_t = templates[-1]
-                    t = {k: v for k, v in prev_t.items() if k not in ("abort_at", "abort_style", "abort_file", "abort_write", "reuse", "variant")}
-                    t["reuse"] = True
-                    t["entry"] = "api"
-                    if ro.chance(1, 2):
-                        t["omit_ser"] = not prev_t.get("omit_ser", False)
                 if ro.chance(1, 5):
                     t["abort_at"] = ro.between(1, 12)
                     if ro.chance(1, 2):
@@ -389,11 +398,29 @@ def run_case(case: dict, ctx: dict) -> dict:
                 if ro.chance(1, 8):
                     t["support_ns"] = ro.choice(["acme.support", "x"])
                     t["entry"] = "api"
+                if ro.chance(1, 5):
+                    t["trim_blocks"] = ro.chance(1, 2)
+                    t["lstrip_blocks"] = ro.chance(1, 2)
+                if ro.chance(1, 4):
+                    t["share_lctx"] = True  # this generator is built on the LanguageContext of an earlier invocation
+                    t["entry"] = "api"
+                if ro.chance(1, 8):
+                    t["reserved"] = ro.sample(["value", "data", "count", "flags", "x", "y", "a", "b", "id", "velocity"], 4)
+                    t["entry"] = "api"
                 if ro.chance(1, 6):
                     t["variant"] = True  # this invocation sees an edited copy of the inputs (no subset)
                     t.pop("subset_pick", None)
                 if ro.chance(1, 8):
                     t["omit_ser"] = True
+                if ro.chance(1, 3) and i > 0:
+                    # generate_all() again on the generator object of the previous invocation, possibly with another
+                    # omit_serialization_support argument (a per-call parameter of the same object)
+                    prev_t = templates[-1]
+                    t = {k: v for k, v in prev_t.items() if k not in ("abort_at", "abort_style", "abort_file", "abort_write", "reuse")}  # same object: same inputs, same construction
+                    t["reuse"] = True
+                    t["entry"] = "api"
+                    if ro.chance(1, 2):
+                        t["omit_ser"] = not prev_t.get("omit_ser", False)
                 templates.append(t)
         root0 = max(roots, key=lambda x: (len(types_by_root[x]), x))
         for i, t in enumerate(templates):
@@ -417,7 +444,7 @@ def run_case(case: dict, ctx: dict) -> dict:
                 rs = Rng("subset", pick, op["root"])
                 seeds = rs.sample(all_keys, max(1, min(len(all_keys), 1 + rs.below(3))))
                 op["subset"] = closure_of(types_by_root[op["root"]], seeds)
-            if op.get("support_ns") or op.get("variant") and op.get("subset") is not None:
+            if op.get("support_ns") or op.get("reserved") or op.get("share_lctx") or op.get("variant") and op.get("subset") is not None:
                 op["entry"] = "api"
             if op.get("variant"):
                 op.pop("subset", None)
@@ -446,7 +473,7 @@ def run_case(case: dict, ctx: dict) -> dict:
     evaluations = 0
 
     def ref_key(op: dict) -> str:
-        return repr((op["root"], op["lang"], op.get("templates"), sorted((op.get("pp") or {}).items()), bool(op.get("ns_types")), bool(op.get("omit_ser")), op.get("support_ns"), bool(op.get("variant"))))
+        return repr((op["root"], op["lang"], op.get("templates"), sorted((op.get("pp") or {}).items()), bool(op.get("ns_types")), bool(op.get("omit_ser")), op.get("support_ns"), bool(op.get("variant")), bool(op.get("trim_blocks")), bool(op.get("lstrip_blocks")), repr(op.get("reserved"))))
 
     def reference(op: dict) -> typing.Optional[typing.Dict[str, bytes]]:
         nonlocal evaluations
@@ -455,7 +482,7 @@ def run_case(case: dict, ctx: dict) -> dict:
             return ref_cache[k]
         out_dir = os.path.join(sandbox, "ref-out")
         nnvg._force_rmtree(out_dir)  # pylint: disable=protected-access
-        clean = {kk: vv for kk, vv in op.items() if kk in ("root", "lookups", "lang", "templates", "pp", "ns_types", "omit_ser", "support_ns")}
+        clean = {kk: vv for kk, vv in op.items() if kk in ("root", "lookups", "lang", "templates", "pp", "ns_types", "omit_ser", "support_ns", "trim_blocks", "lstrip_blocks", "reserved")}
         use_variant = bool(op.get("variant")) and variant_files is not None
 
         def child() -> typing.Any:
@@ -552,7 +579,7 @@ def run_case(case: dict, ctx: dict) -> dict:
                 swap_inputs(False)
                 seams.enabled = True
         evaluations += 1
-        desc = "%s|%s|%s|%s|sub=%s|ord=%s|reuse=%s|abort=%s|sns=%s|var=%s" % (op.get("entry"), op["lang"], op.get("templates"), sorted((op.get("pp") or {}).items()), "all" if op.get("subset") is None else len(op["subset"]), op.get("order_seed") is not None, bool(op.get("reuse")), (op.get("abort_style") or "call") if op.get("abort_at") is not None else None, op.get("support_ns"), bool(op.get("variant")))
+        desc = "%s|%s|%s|%s|sub=%s|ord=%s|reuse=%s|abort=%s|sns=%s|var=%s|ws=%s%s|shared=%s|res=%s" % (op.get("entry"), op["lang"], op.get("templates"), sorted((op.get("pp") or {}).items()), "all" if op.get("subset") is None else len(op["subset"]), op.get("order_seed") is not None, bool(op.get("reuse")), (op.get("abort_style") or "call") if op.get("abort_at") is not None else None, op.get("support_ns"), bool(op.get("variant")), int(bool(op.get("trim_blocks"))), int(bool(op.get("lstrip_blocks"))), bool(op.get("share_lctx")), bool(op.get("reserved")))
         trace.append(desc)
         if aborted:
             continue
@@ -619,7 +646,7 @@ def reductions(case: dict) -> typing.Iterator[dict]:
             c["ops"] = ops[:i] + ops[i + 1 :]
             yield c
     for i, op in enumerate(ops):
-        for k, neutral in (("abort_at", None), ("variant", None), ("support_ns", None), ("order_seed", None), ("reuse", None), ("subset", None), ("entry", "api"), ("omit_ser", None), ("pp", {}), ("templates", None)):
+        for k, neutral in (("abort_at", None), ("variant", None), ("support_ns", None), ("share_lctx", None), ("trim_blocks", None), ("lstrip_blocks", None), ("reserved", None), ("order_seed", None), ("reuse", None), ("subset", None), ("entry", "api"), ("omit_ser", None), ("pp", {}), ("templates", None)):
             if op.get(k) not in (neutral, None):
                 c = dict(case)
                 c["ops"] = [dict(o) for o in ops]
